@@ -44,6 +44,17 @@ class C04(PropBase):
                 out.append(F.df11(rng.randrange(8), addr, rng.choice([0, 0, 5, 127])))
             else:
                 out.append(F.df17(rng.randrange(8), addr, F.me_ident(4, 3, F.callsign_codes("ABC123")), df=18))
+        # frames whose data block has a prefix that is a CRC code word itself, followed by a byte of zeros: the division
+        # register runs empty half-way through such a frame (and fills again from the bits that follow)
+        for i in range(max(2, n // 3)):
+            k = rng.randrange(8, 57)
+            df = rng.choice([17, 18])
+            head = (df << (k - 5)) | rng.randrange(1 << (k - 5))
+            r = F.crc24(head, k)
+            rest_bits = 88 - (k + 32)
+            rest = rng.randrange(1, 1 << rest_bits) if rest_bits > 0 else 0
+            data = (((head << 24) | r) << 8) << rest_bits | rest
+            out.append(F.hexs((data << 24) | F.crc24(data, 88), 112))
         return out
 
     def patterns(self, rng, sq, tier, full):
@@ -52,6 +63,11 @@ class C04(PropBase):
         if full:
             pats += [(b,) for b in range(6, n + 1)]
             pats += [(a, b) for a in range(6, n + 1) for b in range(a + 1, n + 1)]
+        # the parity field wiped out / inverted / replaced by the parity of a shorter block
+        v = int(sq, 16)
+        pi = v & 0xFFFFFF
+        pats += [tuple(n - 23 + i for i in range(24) if (pi >> (23 - i)) & 1), tuple(range(n - 23, n + 1))]
+        pats = [p for p in pats if p]
         nb = 300 if tier == "quick" else 3000
         for _ in range(nb):
             L = rng.randrange(1, 25)
